@@ -790,7 +790,7 @@ def search(ctx: Ctx) -> Result:
 
 
 SPEC = PropSpec(
-    prop='C15',
+    prop='C15', extra_props=['C15Frac'],
     translators=['modes'],
     run=run,
     search=search,
